@@ -5,6 +5,7 @@ statement cannot be weakened quietly to make a proof pass.
 -/
 import Verif.C08.Lemmas
 import Verif.C08.DateLemmas
+import Verif.C08.SpellingLemmas
 
 namespace Verif.C08
 open Verif.Py Verif.Tables
@@ -155,5 +156,93 @@ example : castInt (formatInt (-120)) = .ok (-120) := by rfl
 example : parseDate "8-sep-1999".toList = .ok ⟨1999, 9, 8, 0, 0, 0⟩ := by decide
 example : parseDate "apr-95 (15:31:01)".toList = .ok ⟨1995, 4, 1, 15, 31, 1⟩ := by decide
 example : parseDate (formatDate ⟨2002, 12, 1, 15, 31, 1⟩) = .ok ⟨2002, 12, 1, 15, 31, 1⟩ := by decide
+
+end Verif.C08
+
+namespace Verif.C08
+open Verif.Py Verif.Tables
+
+/-! ## "all documented date spellings denote the same instants" -/
+
+/-- "all documented date spellings denote the same instants": for every calendar-valid instant `t`
+(years 1000–9999) and every documented spelling `sp` that fits `t` — order `D-M-Y` or `YYYY-M-D`; day of
+1 or 2 digits, with or without a leading zero, or absent; month of 1 or 2 digits, with or without a
+leading zero, or the three-letter name in any of its 8 letter-case variants; year of 4 digits, or of 2
+digits in `D-M-Y` order for 1993–2092; time absent, `HH:MM` or `HH:MM:SS`, bare or parenthesised, after
+one or more spaces (`Spelling`, `render`, `SpellingFits` in Spelling.lean) — the text is parsed by the
+two date patterns, `_date_fix` and the `strptime` acceptance model to `truncate sp t`, the instant with
+what the spelling omits zeroed (day ↦ 1, seconds / whole time ↦ 0). -/
+theorem spellings_agree (sp : Spelling) (t : DT) (hv : t.Valid = true) (hf : SpellingFits sp t = true) :
+    parseDate (render sp t) = .ok (truncate sp t) := L.spellings_agree sp t hv hf
+
+/-- the same clause through `cast` (a rendered spelling is never the empty string). -/
+theorem cast_spelling (sp : Spelling) (t : DT) (hv : t.Valid = true) (hf : SpellingFits sp t = true) :
+    cast .date (render sp t) = .val (.date (truncate sp t)) := by
+  have hne : (render sp t).isEmpty = false := by
+    obtain ⟨order, day, month, year, time⟩ := sp
+    cases order <;> simp [render]
+  simp [cast, hne, L.spellings_agree sp t hv hf]
+
+/-- "denote the same instants", literally: two documented spellings of `t` that omit the same parts
+(or whose omitted parts are zero in `t` anyway) are cast to the same value. -/
+theorem spellings_same_instant (sp₁ sp₂ : Spelling) (t : DT) (hv : t.Valid = true)
+    (h₁ : SpellingFits sp₁ t = true) (h₂ : SpellingFits sp₂ t = true) (he : truncate sp₁ t = truncate sp₂ t) :
+    parseDate (render sp₁ t) = parseDate (render sp₂ t) := by
+  rw [L.spellings_agree sp₁ t hv h₁, L.spellings_agree sp₂ t hv h₂, he]
+
+/-- a spelling with a day and seconds omits nothing: it denotes `t` itself, as the `format()` spelling does
+(`parseDate_formatDate`). -/
+theorem spelling_full (sp : Spelling) (t : DT) (hv : t.Valid = true) (hf : SpellingFits sp t = true)
+    (hd : sp.day ≠ .absent) (ht : ∃ g p, sp.time = .hms g p) : parseDate (render sp t) = .ok t := by
+  rw [L.spellings_agree sp t hv hf]
+  obtain ⟨order, day, month, year, time⟩ := sp
+  obtain ⟨g, p, rfl⟩ := ht
+  cases day with
+  | absent => exact absurd rfl hd
+  | plain => rfl
+  | padded => rfl
+
+/-! concrete spellings of the `tsdb.cast` docstring are instances of the family (tests, labelled as such):
+the text is `render sp t`, the documented value is `truncate sp t`, and the hypotheses hold. -/
+
+-- `tsdb.cast(':date', '10-6-2002') == datetime(2002, 6, 10, 0, 0)`
+example : render ⟨.dmy, .plain, .plain, .four, .absent⟩ ⟨2002, 6, 10, 0, 0, 0⟩ = "10-6-2002".toList
+    ∧ truncate ⟨.dmy, .plain, .plain, .four, .absent⟩ ⟨2002, 6, 10, 0, 0, 0⟩ = ⟨2002, 6, 10, 0, 0, 0⟩
+    ∧ SpellingFits ⟨.dmy, .plain, .plain, .four, .absent⟩ ⟨2002, 6, 10, 0, 0, 0⟩ = true
+    ∧ (⟨2002, 6, 10, 0, 0, 0⟩ : DT).Valid = true := by decide
+-- `tsdb.cast(':date', '8-sep-1999') == datetime(1999, 9, 8, 0, 0)`
+example : render ⟨.dmy, .plain, .name false false false, .four, .absent⟩ ⟨1999, 9, 8, 0, 0, 0⟩ = "8-sep-1999".toList
+    ∧ truncate ⟨.dmy, .plain, .name false false false, .four, .absent⟩ ⟨1999, 9, 8, 0, 0, 0⟩ = ⟨1999, 9, 8, 0, 0, 0⟩
+    ∧ SpellingFits ⟨.dmy, .plain, .name false false false, .four, .absent⟩ ⟨1999, 9, 8, 0, 0, 0⟩ = true
+    ∧ (⟨1999, 9, 8, 0, 0, 0⟩ : DT).Valid = true := by decide
+-- `tsdb.cast(':date', 'apr-95') == datetime(1995, 4, 1, 0, 0)` (any instant of April 1995 is spelled so)
+example : render ⟨.dmy, .absent, .name false false false, .two, .absent⟩ ⟨1995, 4, 17, 9, 30, 2⟩ = "apr-95".toList
+    ∧ truncate ⟨.dmy, .absent, .name false false false, .two, .absent⟩ ⟨1995, 4, 17, 9, 30, 2⟩ = ⟨1995, 4, 1, 0, 0, 0⟩
+    ∧ SpellingFits ⟨.dmy, .absent, .name false false false, .two, .absent⟩ ⟨1995, 4, 17, 9, 30, 2⟩ = true
+    ∧ (⟨1995, 4, 17, 9, 30, 2⟩ : DT).Valid = true := by decide
+-- `tsdb.cast(':date', '01-dec-02 (15:31:01)') == datetime(2002, 12, 1, 15, 31, 1)`
+example : render ⟨.dmy, .padded, .name false false false, .two, .hms 0 true⟩ ⟨2002, 12, 1, 15, 31, 1⟩
+      = "01-dec-02 (15:31:01)".toList
+    ∧ truncate ⟨.dmy, .padded, .name false false false, .two, .hms 0 true⟩ ⟨2002, 12, 1, 15, 31, 1⟩
+      = ⟨2002, 12, 1, 15, 31, 1⟩
+    ∧ SpellingFits ⟨.dmy, .padded, .name false false false, .two, .hms 0 true⟩ ⟨2002, 12, 1, 15, 31, 1⟩ = true
+    ∧ (⟨2002, 12, 1, 15, 31, 1⟩ : DT).Valid = true := by decide
+-- `tsdb.cast(':date', '2008-10-12 10:51') == datetime(2008, 10, 12, 10, 51)`
+example : render ⟨.ymd, .plain, .plain, .four, .hm 0 false⟩ ⟨2008, 10, 12, 10, 51, 33⟩ = "2008-10-12 10:51".toList
+    ∧ truncate ⟨.ymd, .plain, .plain, .four, .hm 0 false⟩ ⟨2008, 10, 12, 10, 51, 33⟩ = ⟨2008, 10, 12, 10, 51, 0⟩
+    ∧ SpellingFits ⟨.ymd, .plain, .plain, .four, .hm 0 false⟩ ⟨2008, 10, 12, 10, 51, 33⟩ = true
+    ∧ (⟨2008, 10, 12, 10, 51, 33⟩ : DT).Valid = true := by decide
+-- … hence the documented value, as an instance of the theorem
+example : parseDate "01-dec-02 (15:31:01)".toList = .ok ⟨2002, 12, 1, 15, 31, 1⟩ :=
+  spellings_agree ⟨.dmy, .padded, .name false false false, .two, .hms 0 true⟩ ⟨2002, 12, 1, 15, 31, 1⟩
+    (by decide) (by decide)
+-- other members of the family: mixed case, leading-zero month with a 1-digit day, two spaces, `(HH:MM)`
+example : render ⟨.dmy, .plain, .padded, .four, .hm 1 true⟩ ⟨1999, 9, 8, 7, 5, 9⟩ = "8-09-1999  (07:05)".toList := by decide
+example : render ⟨.ymd, .absent, .name true false true, .four, .absent⟩ ⟨1999, 9, 8, 7, 5, 9⟩ = "1999-SeP".toList := by decide
+-- the fit condition is needed: a 2-digit year outside 1993–2092 is read into that window
+-- (the docstring's "users are advised to start using 4-digit years by, at least, the year 2093")
+example : parseDate (render ⟨.dmy, .plain, .plain, .two, .absent⟩ ⟨2093, 1, 1, 0, 0, 0⟩) = .ok ⟨1993, 1, 1, 0, 0, 0⟩ := by decide
+example : SpellingFits ⟨.dmy, .plain, .plain, .two, .absent⟩ ⟨2093, 1, 1, 0, 0, 0⟩ = false := by decide
+example : SpellingFits ⟨.ymd, .plain, .plain, .two, .absent⟩ ⟨2000, 1, 1, 0, 0, 0⟩ = false := by decide
 
 end Verif.C08
